@@ -1140,6 +1140,76 @@ func vfSenderCase(t *testing.T, s *vfutil.Session, r *vfutil.Rand, c *vfSCase, t
 			}
 			if bad != "" {
 				s.Violate("C02:resumed-run-differs", fmt.Sprintf("crash after %d requests, restart at %d in db %d: %s", sp.k, sp2.Offset, sp2.DbId, bad), rp)
+				continue
+			}
+			// A THIRD LIFE (Props.C02.lives_lose_nothing / lives_then_complete on the real code):
+			// the resumed run itself dies after k2 requests -- on a target that holds the
+			// records of both lives -- and the tool is started once more and finishes
+			k2s := []int{r.Intn(len(log2) + 1)}
+			if src != "gen" {
+				// corpus / replay cases run every first crash point; five second ones each
+				k2s = k2s[:0]
+				for q := 0; q <= 4; q++ {
+					k2 := len(log2) * q / 4
+					if len(k2s) == 0 || k2s[len(k2s)-1] != k2 {
+						k2s = append(k2s, k2)
+					}
+				}
+			}
+			for _, k2 := range k2s {
+				pre2 := append(append([]vfdoubles.LogEntry{}, pre...), log2[:k2]...)
+				tk2 := vfdoubles.ReplayWith(pre2, 0, true)
+				sp3, log3, ok3 := vfRunResumed(t, c, tk2, c.start, stream, boundary)
+				if !ok3 {
+					s.Count("third_life_none")
+					continue
+				}
+				s.Count("third_lives")
+				rp3 := replay(map[string]interface{}{"k": sp.k, "offset": sp2.Offset, "db": sp2.DbId, "k2": k2, "offset3": sp3.Offset, "db3": sp3.DbId})
+				app2k, _, _ := vfAppliedOf(c, log2[:k2])
+				app3, _, _ := vfAppliedOf(c, log3)
+				if sp3.Offset < sp2.Offset {
+					s.Violate("C07:restart-lowers-position", fmt.Sprintf("second crash after %d requests of the resumed run: the next start reads %d, the resumed run had started at %d", k2, sp3.Offset, sp2.Offset), rp3)
+					continue
+				}
+				first3 := 0
+				for first3 < len(exp) && exp[first3].end <= sp3.Offset {
+					first3++
+				}
+				// everything up to the position is among what both dead lives executed, in order
+				done12 := append(append([]vfApplied{}, app1...), app2k...)
+				j := 0
+				for _, a := range done12 {
+					if j < first3 && vfSameCmd(a.args, exp[j].args) && a.db == exp[j].db {
+						j++
+					}
+				}
+				if j < first3 {
+					s.Violate("C02:write-skipped", fmt.Sprintf("two crashes (after %d, then %d requests): restart at %d in db %d skips command #%d %s, which no life executed", sp.k, k2, sp3.Offset, sp3.DbId, j, vfFmtCmd(exp[j].db, exp[j].args)), rp3)
+					continue
+				}
+				if c.txn && len(done12) != first3 {
+					s.Violate("C02:write-repeated", fmt.Sprintf("transactional mode, two crashes (after %d, then %d requests): %d commands executed, the position %d covers %d", sp.k, k2, len(done12), sp3.Offset, first3), rp3)
+					continue
+				}
+				want3 := exp[first3:]
+				bad3 := ""
+				for j, a := range app3 {
+					if j >= len(want3) {
+						bad3 = fmt.Sprintf("third life executes a command the stream does not hold there: %s", vfFmtCmd(a.db, a.args))
+						break
+					}
+					if !vfSameCmd(a.args, want3[j].args) || a.db != want3[j].db {
+						bad3 = fmt.Sprintf("third life #%d executes %s, the stream holds %s", j, vfFmtCmd(a.db, a.args), vfFmtCmd(want3[j].db, want3[j].args))
+						break
+					}
+				}
+				if bad3 == "" && !c.txn && len(app3) < len(want3) {
+					bad3 = fmt.Sprintf("third life ended (final flush) with %d of the %d remaining commands executed", len(app3), len(want3))
+				}
+				if bad3 != "" {
+					s.Violate("C02:resumed-run-differs", fmt.Sprintf("two crashes (after %d, then %d requests), restart at %d in db %d: %s", sp.k, k2, sp3.Offset, sp3.DbId, bad3), rp3)
+				}
 			}
 		}
 	}
